@@ -882,6 +882,9 @@ class TemplateModel(object):
         """Return data for one template."""
         if not self.sparse_templates:
             return
+        if channel_ids is not None:
+            # The requested channels may be given as a list.
+            channel_ids = np.asarray(channel_ids)
         template_w = self.sparse_templates.data[template_id, ...]
         template = self._unwhiten(template_w).astype(np.float32) if unwhiten else template_w
         assert template.ndim == 2
